@@ -38,9 +38,7 @@ class CheckC08(core.Check):
         rnd = random.Random(self.seed * 179424673 + 8)
         descs = []
         for p, ps in all_variants():
-            if self.tier == "quick" and len(ps) > 1 and rnd.random() < 0.7:
-                continue
-            reps = 1 if self.tier == "quick" else 6
+            reps = 2 if self.tier == "quick" else 40
             for _ in range(reps):
                 descs.append((make_name(p, ps, rnd.choice(DHS), rnd.choice(CIPHERS), rnd.choice(HASHES)), rnd.getrandbits(24)))
         return descs
